@@ -106,7 +106,12 @@ def answerLf (name op : String) (args : List String) : String :=
     | "lt_modulus", some [a] => toString (ltModBorrow p.m a)
     | "from_bytes", some [a] =>
       -- (is_some, limbs of the value built regardless of the flag)
-      toString (ltModBorrow p.m a) ++ " " ++ fmtL4 (if carryAware then mulC p a r2 else mulL p a r2)
+      if ltModBorrow p.m a = 1 then "1 " ++ fmtL4 (if carryAware then mulC p a r2 else mulL p a r2)
+      else "0"
+    | "lex_largest", some [a] =>
+      if name = "C25519Fp" then
+        fmtBool (lexLargestC p ((L4.ofList Gen.C25519Fp.HALF_MODULUS).getD L4.zero) a)
+      else "bad-op"
     | "sqrt", some [a] => fmtOptL4 (sqrtLimbs name p carryAware a)
     | "invert", some [a] => fmtOptL4 (invertLimbs name p a)
     | "pow", some [a, e] => fmtL4 (powLimbs p carryAware (oneOf name) a e.toList)
